@@ -168,6 +168,19 @@ def zero_variance_case(ctx, c, opts):
             ctx.fail(f"{name}_mc_var is not zero with all variances zero", desc)
             return
     if c.double:
+        # parameter uncertainty excluded + noise-free intensities: every realisation is the calibrated temperature, whatever p_cov
+        try:
+            mc2 = mc_call(c, out, mc_sample_size=3, mc_remove_set_flag=False, conf_ints=[], exclude_parameter_uncertainty=True, **zero)
+        except Exception as e:  # noqa: BLE001
+            ctx.fail(f"monte_carlo(exclude_parameter_uncertainty=True) with zero intensity variances raised {type(e).__name__}: {e}", desc)
+            return
+        for name in ("tmpf", "tmpb"):
+            dev = np.nanmax(np.abs(np.asarray(mc2[name + "_mc_set"].values) - out[name].values[None]))
+            if not np.isfinite(dev) or dev > 1e-9:
+                ctx.fail(f"with parameter uncertainty excluded and zero intensity variances a realisation of {name} differs from the "
+                         f"calibrated temperature by {dev:.3g} K", desc)
+                return
+        ctx.count("zero-variance:exclude_parameter_uncertainty")
         ctx.count("zero-variance tmpw realisations NaN (recorded): %s" % bool(np.any(np.isnan(np.asarray(mc["tmpw_mc_set"].values)))))
     ctx.case(sig=["zero", c.double, len(c.trans_att), sorted(opts)], nontrivial=True, sample=desc)
     ctx.count("zero-variance")
@@ -270,6 +283,15 @@ def run(ctx):
         unpack_case(ctx, c, o)
         if k % 2 == 0:
             zero_variance_case(ctx, c, o)
+    # always present: two splices, both directions (the splice block is the part of p_val with the most intricate layout)
+    for double in (True, False):
+        for _ in range(20):
+            c = fibre.make_case(rng, double=double, nx=rng.randint(12, 18), nt=rng.randint(2, 3), n_baths=2, n_stretch=3, nta=2, n_match=0,
+                                noise=0.002, var_kind="float")
+            if len(c.trans_att) == 2:
+                unpack_case(ctx, c, {})
+                zero_variance_case(ctx, c, {})
+                break
     for k in range(3 if ctx.quick else 12):
         c = gen(ctx, rng, only0=(k == 2))
         out, _ = calib.run_real(c)
